@@ -267,6 +267,47 @@ pub fn exec(toks: &[&str]) -> String {
             let n = NotificationFile::new(Uuid::nil(), 1, UriAndHash::new(s, Hash::from([0u8; 32])), ds);
             n.has_matching_origins(&b).to_string()
         }
+        // a document that is *not* what the library writes (structural mutations of written files): every parser must
+        // return a value or an error; a value, written again, must parse back to an equal value
+        ["rmut", file, lim, h] => {
+            let Some(b) = unhex(h) else { return "bad-op".into() };
+            let res = std::panic::catch_unwind(std::panic::AssertUnwindSafe(|| -> String {
+                match *file {
+                    "notif" => {
+                        let r = if *lim == "-" { NotificationFile::parse(b.as_slice()) } else { NotificationFile::parse_limited(b.as_slice(), lim.parse().unwrap()) };
+                        match r {
+                            Ok(n) => {
+                                // more deltas than the caller's limit: the list is replaced by an error marker, which no
+                                // document can express -- nothing to write back
+                                if n.delta_status().is_err() { return "ok oversized".into() }
+                                let st = "deltas-ok";
+                                let mut out = Vec::new();
+                                if n.write_xml(&mut out).is_err() { return "ok io-err".into() }
+                                match NotificationFile::parse(out.as_slice()) { Ok(m) if m == n => format!("ok rt-same {} {}", st, n.deltas().len()), Ok(_) => "ok rt-differs".into(), Err(_) => "ok rt-err".into() }
+                            }
+                            Err(_) => "err".into(),
+                        }
+                    }
+                    "snap" => match Snapshot::parse(b.as_slice()) {
+                        Ok(n) => {
+                            let mut out = Vec::new();
+                            if n.write_xml(&mut out).is_err() { return "ok io-err".into() }
+                            match Snapshot::parse(out.as_slice()) { Ok(m) if m == n => format!("ok rt-same - {}", n.elements().len()), Ok(_) => "ok rt-differs".into(), Err(_) => "ok rt-err".into() }
+                        }
+                        Err(_) => "err".into(),
+                    },
+                    _ => match Delta::parse(b.as_slice()) {
+                        Ok(n) => {
+                            let mut out = Vec::new();
+                            if n.write_xml(&mut out).is_err() { return "ok io-err".into() }
+                            match Delta::parse(out.as_slice()) { Ok(m) if m == n => format!("ok rt-same - {}", n.elements().len()), Ok(_) => "ok rt-differs".into(), Err(_) => "ok rt-err".into() }
+                        }
+                        Err(_) => "err".into(),
+                    },
+                }
+            }));
+            match res { Ok(r) => r, Err(_) => "panic".into() }
+        }
         ["bomb", file, kind] => {
             let Some((prefix, filler, lim)) = bomb(file, kind) else { return "bad-op".into() };
             let plen = prefix.len();
@@ -436,6 +477,85 @@ pub fn generate(ctx: &mut Ctx) {
         let k = rng.range(0, 4);
         let ds: Vec<String> = (0..k).map(|_| hex(&https(&mut rng))).collect();
         ctx.case(&format!("origins {} {} {}", hex(&base), hex(&snap), if ds.is_empty() { "-".into() } else { ds.join(",") }));
+    }
+    // --- structurally wrong documents: written files with one or two textual mutations
+    {
+        let mk_notif = |rng: &mut Rng| -> Vec<u8> {
+            let nd = rng.below(4);
+            let top = 5 + rng.below(100);
+            let u = |rng: &mut Rng| uri::Https::from_slice(&https(rng)).unwrap();
+            let deltas: Vec<DeltaInfo> = (0..nd).map(|i| DeltaInfo::new(top - i, u(rng), Hash::from([i as u8; 32]))).collect();
+            let n = NotificationFile::new(Uuid::from_slice(&rng.bytes(16)).unwrap(), top, UriAndHash::new(u(rng), Hash::from([9u8; 32])), deltas);
+            let mut out = Vec::new(); n.write_xml(&mut out).unwrap(); out
+        };
+        let mk_snap = |rng: &mut Rng| -> Vec<u8> {
+            let k = rng.below(3);
+            let ps: Vec<PublishElement> = (0..k).map(|_| PublishElement::new(uri::Rsync::from_slice(&rsync(rng)).unwrap(), { let l = rng.below(40) as usize; rng.bytes(l) }.into())).collect();
+            let s = Snapshot::new(Uuid::from_slice(&rng.bytes(16)).unwrap(), rng.below(1000), ps);
+            let mut out = Vec::new(); s.write_xml(&mut out).unwrap(); out
+        };
+        let mk_delta = |rng: &mut Rng| -> Vec<u8> {
+            let k = rng.below(4);
+            let ds: Vec<DeltaElement> = (0..k).map(|_| {
+                let u = uri::Rsync::from_slice(&rsync(rng)).unwrap();
+                match rng.below(3) {
+                    0 => DeltaElement::Publish(PublishElement::new(u, { let l = rng.below(40) as usize; rng.bytes(l) }.into())),
+                    1 => DeltaElement::Update(UpdateElement::new(u, Hash::from([3u8; 32]), { let l = rng.below(40) as usize; rng.bytes(l) }.into())),
+                    _ => DeltaElement::Withdraw(WithdrawElement::new(u, Hash::from([4u8; 32]))),
+                }
+            }).collect();
+            let d = Delta::new(Uuid::from_slice(&rng.bytes(16)).unwrap(), rng.below(1000), ds);
+            let mut out = Vec::new(); d.write_xml(&mut out).unwrap(); out
+        };
+        let replace_nth = |t: &str, from: &str, to: &str, nth: usize| -> String {
+            let mut out = String::new(); let mut rest = t; let mut i = 0;
+            while let Some(p) = rest.find(from) {
+                out.push_str(&rest[..p]);
+                out.push_str(if i == nth { to } else { from });
+                rest = &rest[p + from.len()..]; i += 1;
+            }
+            out.push_str(rest); out
+        };
+        let names = ["notification", "snapshot", "delta", "publish", "withdraw"];
+        let attrs = ["xmlns", "version", "session_id", "serial", "uri", "hash"];
+        for _ in 0..n {
+            let file = *rng.pick(&["notif", "snap", "delta"]);
+            let doc = match file { "notif" => mk_notif(&mut rng), "snap" => mk_snap(&mut rng), _ => mk_delta(&mut rng) };
+            let mut t = String::from_utf8(doc).unwrap();
+            for _ in 0..rng.range(0, 2) {
+                let nth = rng.below(3) as usize;
+                t = match rng.below(16) {
+                    0 => { let a = *rng.pick(&names); let b = *rng.pick(&["notification", "snapshot", "delta", "publish", "withdraw", "publis", "Snapshot", "x"]); replace_nth(&t, a, b, nth) }
+                    1 => replace_nth(&t, "version=\"1\"", *rng.pick(&["version=\"2\"", "version=\"\"", "version=\"01\"", "version=\"1 \"", ""]), 0),
+                    2 => { // drop an attribute (with its value)
+                        let a = *rng.pick(&attrs);
+                        match t.match_indices(&format!(" {}=\"", a)).nth(nth).map(|(i, _)| i) {
+                            Some(i) => { let j = t[i + a.len() + 3..].find('"').map(|k| i + a.len() + 3 + k + 1).unwrap_or(t.len()); format!("{}{}", &t[..i], &t[j..]) }
+                            None => t }
+                    }
+                    3 => { // duplicate an attribute
+                        let a = *rng.pick(&attrs);
+                        match t.match_indices(&format!(" {}=\"", a)).nth(nth).map(|(i, _)| i) {
+                            Some(i) => { let j = t[i + a.len() + 3..].find('"').map(|k| i + a.len() + 3 + k + 1).unwrap_or(t.len()); let dup = t[i..j].to_string(); format!("{}{}{}", &t[..j], dup, &t[j..]) }
+                            None => t }
+                    }
+                    4 => replace_nth(&t, " uri=", " foo=\"bar\" uri=", nth),
+                    5 => replace_nth(&t, " serial=\"", *rng.pick(&[" serial=\"+", " serial=\"-", " serial=\" ", " serial=\"18446744073709551616", " serial=\"0x", " serial=\"1e"]), nth),
+                    6 => replace_nth(&t, " hash=\"", *rng.pick(&[" hash=\"0", " hash=\"zz", " hash=\"", " hash=\" "]), nth),
+                    7 => replace_nth(&t, "rsync://", *rng.pick(&["https://", "rsync:/", "RSYNC://", "rsync://h/"]), nth),
+                    8 => replace_nth(&t, "https://", *rng.pick(&["http://", "rsync://", "HTTPS://", "https:/"]), nth),
+                    9 => { let i = rng.below(t.len() as u64 + 1) as usize; let mut i = i; while !t.is_char_boundary(i) { i -= 1; } t[..i].to_string() }
+                    10 => format!("{}{}", t, *rng.pick(&["<x/>", "text", "<!-- c -->", "<snapshot/>", " \n", "\0"])),
+                    11 => replace_nth(&t, "><", *rng.pick(&[">text<", "><!-- c --><", "><?pi x?><", "><![CDATA[x]]><", ">\n\n<", "> <publish/><"]), nth),
+                    12 => replace_nth(&t, "http://www.ripe.net/rpki/rrdp", *rng.pick(&["http://www.ripe.net/rpki/rrdp/", "", "urn:x", "HTTP://www.ripe.net/rpki/rrdp"]), 0),
+                    13 => replace_nth(&t, "</publish>", *rng.pick(&["<publish/></publish>", "</publish></publish>", "", "</withdraw>"]), nth),
+                    14 => replace_nth(&t, " session_id=\"", *rng.pick(&[" session_id=\"0", " session_id=\"g", " session_id=\"{", " session_id=\" "]), 0),
+                    _ => replace_nth(&t, "<", *rng.pick(&["< ", "<ns:", "<<", "&lt;"]), nth + 1),
+                };
+            }
+            let lim = if file == "notif" && rng.bool() { rng.below(4).to_string() } else { "-".into() };
+            ctx.case(&format!("rmut {} {} {}", file, lim, hex(t.as_bytes())));
+        }
     }
     // --- endless streams (the file-limit ones pull 100 MB each: only in the first shard's share)
     for file in ["notif", "snap", "delta"] {
